@@ -8,7 +8,9 @@ Generated domain
       data|bss with re-entry, .ORG to distinct well-separated origins (incl. 64 KiB page edges), defb/defw/defl
       (numbers, symbols), defs, defm, comments, blank lines, keyword-case variants;
   (b) rare classes: near JP/CALL to a label on another page (must be rejected), two instructions on one physical
-      line, a label-only line in front of .ORG / SECTION, .ORG <earlier label>;
+      line, a label-only line in front of .ORG / SECTION, .ORG <earlier label>; near JP/CALL targets written as
+      NUMBERS: page-relative low-16 literals, full addresses (page bits set) on the instruction's own page (must
+      assemble like the label of that value) and on another page (must be rejected like the label);
   (c) call histories: sequences of assemble() on 1..3 Assembler objects over valid and invalid programs.
 Oracle: layout model (c10_model.layout) for label addresses and byte placement, per-instruction standalone
 equivalence, operand-field extraction for label references, page rule, history independence.
@@ -82,6 +84,7 @@ def _strategies() -> Any:
     def programs(draw: Any, max_lines: int, special: bool = True) -> Dict[str, Any]:
         n = draw(st.integers(1, max_lines))
         f_cross = special and draw(pct) < 9
+        f_litcross = special and draw(pct) < 8  # a near target written as a full-address LITERAL on another page
         f_pair = special and draw(pct) < 5
         f_orgsym = special and draw(pct) < 4
         f_prelabel = special and draw(pct) < 8
@@ -207,6 +210,19 @@ def _strategies() -> Any:
                 lines.append(deco({"label": new_label(), "stmt": {"t": "instr", "shape": info["template"],
                                                                   "ops": [None]}}))
                 lines.append(deco({"label": new_label(), "stmt": {"t": "instr", "shape": "RET", "ops": []}}))
+        if f_litcross and _PAL_NEAR:
+            # make sure the program has a near JP/CALL that can carry the literal (own origin in half of the cases,
+            # so that the instruction sits on pages other than the ones the rest of the program uses)
+            s = free_slot() if draw(pct) < 50 else None
+            if cur == "bss" or s is not None:
+                lines.append(deco({"label": None, "stmt": {"t": "section", "name": code_name,
+                                                           "text": "SECTION " + code_name}}))
+                cur = code_name
+            if s is not None:
+                lines.append(deco({"label": None, "stmt": {"t": "org", "addr": s, "style": draw(st.integers(0, 3))}}))
+            info = draw(st.sampled_from(_PAL_NEAR))
+            lines.append(deco({"label": new_label() if draw(pct) < 50 else None,
+                               "stmt": {"t": "instr", "shape": info["template"], "ops": [None]}}))
         if draw(pct) < 15:
             lines.append(deco({"label": new_label(), "own_line": True, "stmt": None}))  # trailing `end:` label
         unstable: set = set()
@@ -256,12 +272,23 @@ def _strategies() -> Any:
             if stmt["t"] == "instr":
                 info = M.shape_info(stmt["shape"])
                 for i, slot in enumerate(info["slots"]):
-                    if not slot["symbolic"] or draw(pct) >= 65:
-                        continue
                     if slot["kind"] == "J":
                         a = rec["addr"]
                         if (a >> 16) != ((a + rec["size"]) >> 16):
-                            continue  # straddles a page boundary: keep the literal
+                            continue  # straddles a page boundary: keep the low-16 literal
+                        mode = draw(pct)
+                        if not slot["symbolic"] or mode >= 55:
+                            # numeric target.  A literal <= 0xFFFF is page-relative (the drawn u16 stays); a literal
+                            # with page bits is a full address: on the instruction's own page it must assemble like
+                            # a label of that value, on another page it must be rejected like one.
+                            low = int(stmt["ops"][i]["num"]) & 0xFFFF
+                            page = a >> 16
+                            if f_litcross and draw(pct) < 60:
+                                other = draw(st.sampled_from([p for p in range(1, 16) if p != page]))
+                                stmt["ops"][i]["num"] = (other << 16) | low
+                            elif page and mode >= 70:
+                                stmt["ops"][i]["num"] = (page << 16) | low
+                            continue
                         ref = None
                         if f_cross and draw(pct) < 60:
                             others = sorted({v["value"] >> 16 for v in labs.values() if not v["bss_rel"]} - {a >> 16})
@@ -269,6 +296,8 @@ def _strategies() -> Any:
                                 ref = pick(0xFFFFF, False, draw(st.sampled_from(others)))
                         if ref is None:
                             ref = pick(0xFFFFF, False, a >> 16)
+                    elif not slot["symbolic"] or draw(pct) >= 65:
+                        continue
                     else:
                         ref = pick(S.SLOT_MAX[slot["kind"]], slot["kind"] == "l")
                     if ref is not None:
@@ -297,6 +326,7 @@ def _strategies() -> Any:
                     "    MV A,,\n",                                 # parse error
                     "    MVW (0x10), 0x12345\n",                    # operand out of range: fails in pass one
                     "SECTION code\n.ORG 0x50100\nfar9: JP faraway9\n.ORG 0x60100\nfaraway9: RET\n",  # page rule
+                    "SECTION code\n.ORG 0x50100\nfar9: CALL 0x60100\n",   # page rule, target written as a literal
                 ]))
             progs.append(p)
         nobj = draw(st.integers(1, 3))
@@ -360,6 +390,14 @@ def _features(prog: Dict[str, Any]) -> Tuple[List[str], bool]:
                     labels.append("near-symbolic")
                     if addr_of.get(i, 0) > 0xFFFF:
                         labels.append("near-symbolic-high-page")
+                elif S.is_near(stmt["shape"]):
+                    num, page = int(stmt["ops"][0]["num"]), addr_of.get(i, 0) >> 16
+                    if num <= 0xFFFF:
+                        labels.append("near-literal-low16" + ("-high-page" if page else ""))
+                    elif (num >> 16) == page:
+                        labels.append("near-literal-full-address-same-page")
+                    else:
+                        labels.append("near-literal-full-address-other-page")
                 if ln.get("join_prev"):
                     labels.append("one-line-pair")
             elif any("sym" in a for a in stmt.get("args", []) if isinstance(a, dict)):
@@ -613,8 +651,12 @@ def run(ctx: Ctx) -> Report:
         "keeps a separate pointer)",
         "a label on the same physical line as .ORG/SECTION is not generated (which address it names is not stated); "
         "a label alone on the preceding line is taken to name the location before the directive",
-        "near JP/CALL whose bytes straddle a 64 KiB boundary get literal targets only (the statement does not say "
-        "which page counts)",
+        "near JP/CALL whose bytes straddle a 64 KiB boundary get low-16 literal targets only (the statement does "
+        "not say which page counts)",
+        "a numeric near JP/CALL target <= 0xFFFF is page-relative (maintainers' low-16 form) and never judged by "
+        "the page rule; a numeric target with page bits (> 0xFFFF) is the value a label would have and is judged "
+        "like the label: same page -> field = low 16 bits, other page -> rejected; consequently a label on page 0 "
+        "is never replaced by its value when the literal form of a rejected cross-page program is tried",
         "strings contain no double quote or backslash; numbers have no leading zeros; label names never coincide "
         "with register or internal-memory register names",
         "history verdicts compare with a fresh Assembler in the same process (module-level caches are already "
